@@ -190,7 +190,10 @@ func (f *structField) LocateParams(typeToValue TypeToValue) (*Params, error) {
 	var argType reflect.Type
 	var vals []any
 	if s, ok := typeToValue[f.structType]; ok {
-		val := s.FieldByIndex(f.index)
+		val, err := s.FieldByIndexErr(f.index)
+		if err != nil {
+			return nil, fmt.Errorf("cannot access %s: nil embedded struct pointer", f.Desc())
+		}
 		if val.IsZero() && f.omitEmpty {
 			omit = true
 		}
@@ -213,7 +216,10 @@ func (f *structField) LocateParams(typeToValue TypeToValue) (*Params, error) {
 			}
 			// The slice has the correct type so there is no need to check the
 			// type of each element.
-			val := s.FieldByIndex(f.index)
+			val, err := s.FieldByIndexErr(f.index)
+			if err != nil {
+				return nil, fmt.Errorf("cannot access %s at index %d: nil embedded struct pointer", f.Desc(), i)
+			}
 			if f.omitEmpty {
 				// If the omitemtpy flag is present, we expect either all rows to
 				// have a zero value, or all have a none zero value. If we have a
@@ -253,7 +259,10 @@ func (f *structField) LocateScanTarget(typeToValue TypeToValue) (any, *ScanProxy
 	if !ok {
 		return nil, nil, valueNotFoundError(typeToValue, f.structType)
 	}
-	val := s.FieldByIndex(f.index)
+	val, err := s.FieldByIndexErr(f.index)
+	if err != nil {
+		return nil, nil, fmt.Errorf("cannot access %s: nil embedded struct pointer", f.Desc())
+	}
 	if !val.CanSet() {
 		return nil, nil, fmt.Errorf("internal error: cannot set field %s of struct %s", f.name, f.structType.Name())
 	}
